@@ -9,7 +9,7 @@ CHECKS = {
     "C01": dict(engine="core(sched+api)", technique=PBT + "generated multi-threaded programs + generated schedules at hook-site granularity (stateful model-based, baton scheduler); oracle: exactly-once multiset equality with the reference model and delivery deadlines per cycle/flush; plus ring-fill episodes in the default configuration (a record may be missing only if its own submit was pushed inside an overload window), pools of 33-40 registered threads, queue registration at the first command with a true-waiter model of the registry lock, a constructed overlap of two real flush() calls (reporter parks the first one), a free-running no-flush sub-check against the real background collector, 2-32 brand-new OS threads released at the same instant whose spans one later flush() must report and, in the thorough tier, a coverage-guided libFuzzer campaign over (program, schedule) bytes with the same oracles",
                 text="Exploration: 30k hooked-scheduler cases + 18k public-API cases per quick run (x20 in the thorough tier), each compared with a reference model (exactly once, nothing invented, delivered by the first complete cycle / by flush()). Schedules are sampled at push/drain/empty-pop granularity, so cross-thread drain races and thread-exit races are reached deterministically; absence is not established.",
                 note="Trusts the baton scheduler (one vthread at a time), the hook sites as the only relevant interleaving points (rtrb treated as a linearizable queue), and the harness's sink reporter. The free-running background thread's latency ('about one interval') is not decided here."),
-    "C02": dict(engine="core(api)", technique=PBT + "generated span-tree programs; oracle: delivered (trace id, parent id) multiset per span name equals the reference model's tree, ids non-zero and distinct",
+    "C02": dict(engine="core(api)", technique=PBT + "generated span-tree programs (attachment closures that trace themselves included); oracle: delivered (trace id, parent id) multiset per span name equals the reference model's tree, ids non-zero and distinct",
                 text="Exploration: 72k generated programs per quick run in both collector configurations (640k thorough); every delivered record is matched by unique name to a model span and its trace/parent ids are compared with the model tree.",
                 note="Parent ids are resolved through the parent's delivered record (fallback: id reported by from_span). Id collisions of probability 2^-32 are not reachable."),
     "C03": dict(engine="core(sched+api)", technique=PBT + "generated programs + schedules in cancelable mode; oracle: one report() batch per trace containing root and must-set (spans finished before the root by baton happens-before); plus overlapping real flush() calls with cancelable(true) (every trace whole once its root finished); thorough tier adds the libFuzzer (program, schedule) campaign",
@@ -24,10 +24,10 @@ CHECKS = {
     "C06": dict(engine="core(api)", technique=PBT + "generated attachment programs with arbitrary Unicode; oracle: each attachment exactly once on its target record(s), nowhere else, values byte-identical, per-route order preserved",
                 text="Exploration: 72k programs per quick run, both configurations, flush() cycles at any operation boundary between attachment and finish.",
                 note="Must/may classification follows the property's own precondition. Shapes of the known dup-unit finding are excluded by construction and counted."),
-    "C07": dict(engine="core(api+sched)", technique=PBT + "generated API call sequences in every listed state (no reporter, no-op/unsampled/empty parents, re-entrant closures, full queue, exceeded limits, thread-local teardown), incl. calls made while the thread unwinds from an unrelated panic, lazy argument iterators and the text decoders on near-valid headers, plus the real background collector with a reporter that uses the tracing API inside report() followed by a flush() that has to return; oracle: every call returns (catch_unwind per call; process abort = violation; an operation that needed another vthread deadlocks the scheduler; flush() back within 8 s)",
+    "C07": dict(engine="core(api+sched)", technique=PBT + "generated API call sequences in every listed state (no reporter, no-op/unsampled/empty parents, re-entrant closures, full queue, exceeded limits, thread-local teardown), incl. calls made while the thread unwinds from an unrelated panic, lazy argument iterators and the text decoders on near-valid headers, plus the real background collector with a reporter that uses the tracing API inside report() followed by a flush() that has to return, and a reporter that panics on the background thread followed by generated host calls (flush, set_reporter, spans) that have to return; oracle: every call returns (catch_unwind per call; process abort = violation; an operation that needed another vthread deadlocks the scheduler; flush() back within 8 s)",
                 text="Exploration: ~19k in-process sequences (incl. re-entrant mini programs inside property/event closures), 4.8k sequences without a reporter, 4.8k scheduled sequences with ring-fill episodes, limit bursts and 1200 thread-local-teardown cases on fresh OS threads per quick run.",
                 note="Debug assertions are ON in the harness profile (as in the repository's own dev-profile suite). Blocking is detected only as scheduler deadlock / watchdog expiry."),
-    "C08": dict(engine="core(sched)", technique=PBT + "generated trace/thread histories + schedules; oracle: collector_stats() zero at quiescence and bounded by in-flight traces/live threads at every idle point; plus constructed overlapping real flush() calls (traces alive across the parked cycle) with the counters read afterwards",
+    "C08": dict(engine="core(sched)", technique=PBT + "generated trace/thread histories + schedules; oracle: collector_stats() zero at quiescence and bounded by in-flight traces/live threads at every idle point; plus constructed overlapping real flush() calls (traces alive across the parked cycle) with the counters read afterwards, and thread-local teardown cases (a user thread-local's destructor issues generated tracing calls and drops stashed spans; counters compared before/after each case)",
                 text="Exploration: 72k scheduled histories per quick run in both configurations, stats sampled after every cycle.",
                 note="Only the four counters exposed by the verification hook are observed."),
     "C09": dict(engine="core(sched+api)", level="fault_enumeration", technique=PBT + "fault injection: generated ring-fill episodes and scope-limit bursts (scopes with open local spans filled to the limit, local operations continuing while full) inside generated programs and schedules; oracle: missing subset of permitted (submits logged as dropped with free==0), delivered records correct, per-ring order of commit/drop commands issued == received, recovery complete",
@@ -36,16 +36,16 @@ CHECKS = {
     "C10": dict(engine="core(api)", technique=PBT + "generated well-nested scope sequences with context probes; oracle: metamorphic frame condition (observation after close == before open, same context version => same observation, probe events through both local-event entry points), the content of every collected LocalCollector scope (its spans and the events added while one of them was open) and inertness without scope",
                 text="Exploration: 72k programs per quick run.",
                 note="The observation is current_local_parent(), the parent of a probe span and the record a probe event lands on."),
-    "C11": dict(engine="core(api)", technique=PBT + "generated extraction points; oracle: returned (trace, span, sampled) equals the model's span, matched to the delivered record by name; remote children delivered under it; also inside scopes filled to the per-scope limit",
+    "C11": dict(engine="core(api)", technique=PBT + "generated extraction points; oracle: returned (trace, span, sampled) equals the model's span, matched to the delivered record by name; remote children delivered under it, every returned context survives the traceparent round trip; also inside scopes filled to the per-scope limit",
                 text="Exploration: 72k programs per quick run, both configurations (640k thorough).",
                 note="The shape of a known panic (C07) is excluded by construction and counted."),
     "C12": dict(engine="codec(+libFuzzer)", technique=PBT + "generated contexts (boundary classes) and near-valid traceparent strings (22 mutation kinds) + coverage-guided libFuzzer target with the same oracle; oracle: round trip, fixed output form, differential against an independent reference parser, no panic; 1 % of the contexts are round-tripped from thread-local destructors of a fresh thread",
                 text="Exploration: 3.2M generated cases per quick run; thorough adds 22M cases and a 3 min libFuzzer campaign (oracle inside the target).",
                 note="The reference parser implements only the property's sentence; inputs that are valid hex but not canonical are only required to decode to the denoted values when accepted."),
-    "C13": dict(engine="core(api+sched)", technique=PBT + "scripted inner futures whose per-poll actions are generated, wrapped by in_span/enter_on_poll and driven by generated poll/drop operations from generated vthreads; oracle: local parent inside each poll, frame condition after it, span delivered exactly at completion/drop (cycle deadline + monotonic bracket), final poll's recordings in the delivered trace, one enter_on_poll span per poll; plus a free-running sub-check (real background collector, in_span futures created on one thread and completed on a fresh thread as its first tracing activity, nobody calls flush())",
+    "C13": dict(engine="core(api+sched)", technique=PBT + "scripted inner futures whose per-poll actions are generated, wrapped by in_span/enter_on_poll and driven by generated poll/drop operations from generated vthreads (a call may end in a deliberate panic of the inner object, caught by the caller); oracle: local parent inside each poll, frame condition after it, span delivered exactly at completion/drop (cycle deadline + monotonic bracket), final poll's recordings in the delivered trace, one enter_on_poll span per poll; plus a free-running sub-check (real background collector, in_span futures created on one thread and completed on a fresh thread as its first tracing activity, nobody calls flush())",
                 text="Exploration: 27k API cases (real flush() cycles) and 17k scheduled cases (collector steps inside the completing poll) per quick run, both configurations.",
                 note="The inner future is the harness's scripted object; executors, wakers and real I/O are out of scope. Same trusted base as C01 for the scheduled part."),
-    "C14": dict(engine="core(api+sched)", technique=PBT + "scripted inner streams/sinks wrapped by fastrace_futures::in_span with generated call sequences over the five entry points; oracle as C13 per entry point, and delivery of a finished, never cancelled bound root in both configurations",
+    "C14": dict(engine="core(api+sched)", technique=PBT + "scripted inner streams/sinks wrapped by fastrace_futures::in_span with generated call sequences over the five entry points (a call may end in a deliberate panic of the inner object); oracle as C13 per entry point, and delivery of a finished, never cancelled bound root in both configurations",
                 text="Exploration: 27k API cases and 17k scheduled cases per quick run, both configurations.",
                 note="For poll_close -> Ready(Err) only exactly-once delivery and 'not before that call' are asserted."),
     "C16": dict(engine="core(disabled+api)", technique=PBT + "the same generated programs compiled against fastrace without the enable feature, and with it for non-recording spans, plus the phase before any reporter is installed with real parallelism (1-4 threads creating roots while 0-2 call flush(); then a reporter is installed and nothing of the phase may arrive); oracle: invocation counters in every closure, zero report() calls, no threads, None contexts/elapsed, empty conversions",
@@ -59,7 +59,7 @@ CHECKS = {
                 note="Brackets use fastant::Instant (the library's clock); wall-clock window +-50ms."),
 }
 
-CHECKS["C19"] = dict(engine="reporters", technique=PBT + "generated SpanRecord batches (records sharing a few interleaved traces, keys/values that a backend gives a meaning of its own) through the real reporters to loopback sockets / a capturing exporter, decoded by hand-written Thrift-compact and msgpack decoders; oracle: well-formedness (complete parse, no trailing bytes) and record-by-record faithfulness per target format",
+CHECKS["C19"] = dict(engine="reporters", technique=PBT + "generated SpanRecord batches (records sharing a few interleaved traces, keys/values that a backend gives a meaning of its own) through the real reporters to loopback sockets (the Datadog agent on the IPv4 or the IPv6 loopback address) / a capturing exporter, decoded by hand-written Thrift-compact and msgpack decoders; oracle: well-formedness (complete parse, no trailing bytes) and record-by-record faithfulness per target format",
     text="Exploration: 1.8k Jaeger batches, 2k OpenTelemetry batches, 360 Datadog batches (one HTTP request each) per quick run, 0-400 records each.",
     note="Decoders are written from the wire-format specifications and jaeger.thrift / the v0.4 key set; a real agent's acceptance is not tested. A kernel-side datagram drop makes a case inconclusive, never a violation.")
 CHECKS["C20"] = dict(engine="reporters(+libFuzzer)", technique=PBT + "generated size plans (tiny/medium/near-limit/oversize spans, totals straddling 8000 bytes, records spread over 1-4 interleaved traces, repeated span ids) realised with an independent reference Thrift encoder + libFuzzer target decoding bytes into size plans; oracle: every datagram < 8000 bytes, transmitted spans == exactly the records that fit alone, once and in order, call terminates",
